@@ -111,6 +111,21 @@ Theorem C04_next_timeout_bound :
 Proof. exact next_timeout_bound. Qed.
 Print Assumptions C04_next_timeout_bound.
 
+(* A repeating timer is re-armed by uv_timer_again (which uv__run_timers
+   calls just before the callback) relative to the loop time of that moment,
+   with the repeat value then in force, saturating. *)
+Theorem C04_repeat_rearm :
+  forall s i c, TI s -> (i < length (tms s))%nat ->
+  t_cb (get s i) = Some c -> t_repeat (get s i) <> 0 -> t_closing (get s i) = false ->
+  let s' := fst (timer_again s i) in
+  snd (timer_again s i) = 0 /\
+  t_active (get s' i) = true /\
+  t_timeout (get s' i) = clamp (now s) (t_repeat (get s i)) /\
+  t_repeat (get s' i) = t_repeat (get s i) /\
+  ~ In i (ready s').
+Proof. exact again_rearms. Qed.
+Print Assumptions C04_repeat_rearm.
+
 (* the invariant all of the above rest on is reachable and non-trivial *)
 Example C04_invariant_nonvacuous :
   let s := fst (run (tinit 100) [OInit; OInit; OStart 0 (Some 1%nat) 10 5; OStart 1 (Some 2%nat) 3 0;
